@@ -249,7 +249,7 @@ PROPS['C10'] = dict(
 PROPS['C15'] = dict(
     modules=['Vivid.Props.C15', 'Vivid.Tie.Registry'],
     gens=['registry'],
-    engines=[dict(name='transp', must_hit=['op:tell', 'op:tellv', 'op:ask', 'op:kill', 'op:poison', 'op:watch', 'op:unwatch', 'op:ping', 'op:pipe-ok', 'op:pipe-fail', 'loc:remote', 'cfg:codec', 'cfg:registered'])],
+    engines=[dict(name='transp', must_hit=['op:tell', 'op:tellv', 'op:ask', 'op:kill', 'op:poison', 'op:watch', 'op:unwatch', 'op:watch-twin', 'op:unwatch-twin', 'op:ping', 'op:pipe-ok', 'op:pipe-fail', 'loc:remote', 'cfg:codec', 'cfg:registered'])],
     rule='transp: two real systems over loopback TCP, once with a user Codec and once with RegisterCustomMessage; every ActorRef-taking operation (Tell of a pointer and of a value message, Ask/Reply, Kill graceful and poison, Watch, Unwatch, Ping, '
          'PipeTo with success and with failure results x local/remote forwarder) is executed from inside an actor against a local and against a remote target. Observation: the effects seen by the actors involved (messages with sender role, OnKill fields, '
          'termination, OnKilled.Ref, Pong, PipeResult content; references are rendered by role and checked to carry the address of the system the actor lives on) and the built-in message types the remoting layer reports as sent. Compared with the model, '
